@@ -163,7 +163,9 @@ def main():
             except Exception as e:
                 f = {'problem': 'harness exception', 'error': f'{type(e).__name__}: {e}'[:300]}
             if f:
-                failures.append({'id': f'settings{idx}', 'class': None, 'case': case, 'detail': f})
+                h = case.get('hashing') if isinstance(case.get('hashing'), dict) else {}
+                tiny = h.get('name') == 'blake2b' and isinstance(h.get('length'), int) and 1 <= h['length'] < 16 and 'restore differs' in str(f)
+                failures.append({'id': f'settings{idx}', 'class': 'D15' if tiny else None, 'case': case, 'detail': f})
             if idx < 3:
                 samples.append(case)
         probs, n = lib.run(key_chains(base, rnd))
